@@ -1,26 +1,32 @@
 PROPERTY = 'C35'
-LEVEL = 'proof'
-DISABLED = 'check being built (Kani harness timing under measurement); nothing is claimed yet'
+LEVEL = 'other'
+EXPLANATION = 'BOUNDED STAND-IN, not a proof of the property at the real capacities: complete Kani/CBMC proofs of the const-generic functions instantiated at capacity 8 (every ASCII/NUL name of up to 9 bytes) and capacity 3 (every valid UTF-8 name of up to 4 bytes), capacity 16 in the thorough tier. At the real capacity 32 the same harness found both defects of the pinned tree in 7 min (CBMC counterexamples: a 32-byte name, a name containing NUL) but did not finish proving the repaired tree in 25 min, so it is not registered.'
 KANI = [
-    dict(mode='ext', harness='c35_round_trip_cap32_ascii', timeout=1500, mem_gb=12,
-         fn='gmsol_utils::fixed_str::{fixed_str_to_bytes, bytes_to_fixed_str} at MAX_LEN = 32'),
-    dict(mode='ext', harness='c35_round_trip_cap3_utf8', timeout=900, mem_gb=12,
-         bounded='capacity 3 (names of 0..=4 bytes), every valid UTF-8 string including multi-byte sequences; same generic code as the capacities the programs use',
+    dict(mode='ext', harness='c35_round_trip_cap8_ascii', timeout=900, mem_gb=8,
+         bounded='capacity 8 instead of the real 32/64 (same const-generic code); every ASCII/NUL name of 0..=9 bytes; complete for that instance (loops fully unwound, unwinding assertions on)',
+         fn='gmsol_utils::fixed_str::{fixed_str_to_bytes, bytes_to_fixed_str} at MAX_LEN = 8'),
+    dict(mode='ext', harness='c35_round_trip_cap3_utf8', timeout=900, mem_gb=8,
+         bounded='capacity 3; EVERY valid UTF-8 name of 0..=4 bytes, multi-byte sequences included; complete for that instance',
          fn='gmsol_utils::fixed_str::{fixed_str_to_bytes, bytes_to_fixed_str} at MAX_LEN = 3'),
+]
+KANI_THOROUGH = [
+    dict(mode='ext', harness='c35_round_trip_cap16_ascii', timeout=3000, mem_gb=12,
+         bounded='capacity 16; every ASCII/NUL name of 0..=17 bytes; complete for that instance (measured 13 min)',
+         fn='gmsol_utils::fixed_str::{fixed_str_to_bytes, bytes_to_fixed_str} at MAX_LEN = 16'),
 ]
 ASSUMPTIONS = [
     'Kani 0.68 / CBMC 6.11 bit-precise semantics of the compiled crate gmsol-utils; loops (copy, NUL search, UTF-8 validation) fully unwound with unwinding assertions on',
-    'the capacity-32 harness draws every byte below 128 (ASCII, NUL included) so that the symbolic bytes form a valid &str without running the UTF-8 validator in the harness; multi-byte names are covered only by the bounded capacity-3 harness. Multi-byte UTF-8 sequences contain no 0x00 byte, so the code paths are the same',
-    'capacities other than 32 (market / token names: 64, store key: 32) instantiate the same generic functions; they are not separately run',
+    'the ASCII harnesses draw every byte below 128 (NUL included) so that the symbolic bytes form a valid &str without running the UTF-8 validator in the harness; multi-byte UTF-8 sequences contain no 0x00 byte, so the code paths are the same',
+    'the real capacities (role / executor names and store key: 32, market and token names: 64) instantiate the same const-generic functions; they are NOT run (capacity 32 measured: > 25 min)',
 ]
 UNVERIFIED = [
     'the program-side wrappers (programs/store/src/utils/fixed_str.rs) only map the error type; RoleMetadata::{new, name}, Store::key, Market::name, TokenConfig::name, Executor::role_name call the two functions on their own buffers: located by text on every run, not separately proved',
     '"an accepted role can be used, granted and disabled" follows from the round trip because RoleStore compares metadata.name()? with the requested role; RoleStore itself is C18 material (no check built)',
 ]
 MANIFEST = dict(engine='kani',
-    technique='Kani/CBMC harness on the real gmsol_utils::fixed_str functions: one symbolic name of up to capacity+1 bytes, write then read back, loops fully unwound (unwinding assertions on)',
-    text='Proof over every ASCII/NUL name of 0..=33 bytes at capacity 32: if fixed_str_to_bytes accepts the name, bytes_to_fixed_str reads back exactly the same bytes (in particular it can be read back at all, including names that exactly fill the field, and names containing NUL are not accepted); covers show the empty, a shorter, and an exactly-filling name are accepted and an over-long one rejected. Bounded stand-in for multi-byte UTF-8 at capacity 3.',
-    note='Both defects this check found on the pinned tree are repaired in /repo (fix: e3bc565, recorded in known_findings.txt). ASCII restriction at capacity 32 is stated as an assumption.')
+    technique='Kani/CBMC harnesses on the real gmsol_utils::fixed_str functions instantiated at small capacities: one symbolic name of up to capacity+1 bytes, write then read back, loops fully unwound (unwinding assertions on); bounded stand-in in the capacity',
+    text='BOUNDED (in the capacity; complete per instance): at capacity 8 for every ASCII/NUL name of 0..=9 bytes, and at capacity 3 for every valid UTF-8 name of 0..=4 bytes (capacity 16 in the thorough tier): if fixed_str_to_bytes accepts the name, bytes_to_fixed_str reads back exactly the same bytes -- in particular a name that exactly fills the field reads back, and a name containing NUL is not accepted; covers show the empty, a shorter and an exactly-filling name are accepted and an over-long one is rejected. The real capacities 32/64 instantiate the same const-generic code and are not run.',
+    note='Bounded stand-in, never counted as proved. Both defects this check found on the pinned tree (at capacity 32, with CBMC counterexamples) are repaired in /repo (fix: e3bc565, recorded in known_findings.txt).')
 
 
 def extra(res, repo, tier, seed):
